@@ -14,21 +14,21 @@ package radixtree
 //    tried is decided by the flag of that expression's node (for a catch-all: the catch-all node's).
 //@ func (*Tree).findNode
 //@   props C02 C03
-//@   assert at call Match#1: callarg2 == n.wildcardKeys && callarg3 == captures
-//@   assert at call Match#2: callarg2 == n.catchAllChild.wildcardKeys && len(callarg3) == len(captures) + 1 && callarg3[len(captures)] == path
-//@   assert at return#2: ret0 == n && ret2 == captures && !ret3
-//@   assert at return#3: ret0 == nil && ret3 == n.backtrackingEnabled
-//@   assert at return#7: ret0 == n.catchAllChild && !ret3 && len(ret2) == len(captures) + 1
-//@   assert at return#8: ret0 == nil && ret3 == n.catchAllChild.backtrackingEnabled
-//@   assert at call findNode#1: callarg2 == captures && hasSuffix(path, callarg1)
-//@   assert at call findNode#2: callarg0 == n.wildcardChild && hasSuffix(path, callarg1)
-//@   assert at call findNode#2: len(callarg2) == len(captures) + 1
-//@   assert at call findNode#2: len(callarg2[len(callarg2) - 1]) > 0 && !contains(callarg2[len(callarg2) - 1], "/")
-//@   assert at return#1: ret0 == nil && ret3
-//@   assert at return#4: ret0 != nil || !ret3
-//@   assert at return#5: ret0 != nil
-//@   assert at return#6: ret0 == nil && !ret3
-//@   assert at return#9: ret0 == nil && ret3
+//@   assert at call Match#1@a2bfbb0d.1: callarg2 == n.wildcardKeys && callarg3 == captures
+//@   assert at call Match#2@f551dbaa.1: callarg2 == n.catchAllChild.wildcardKeys && len(callarg3) == len(captures) + 1 && callarg3[len(captures)] == path
+//@   assert at return#2@8776a5b2.1: ret0 == n && ret2 == captures && !ret3
+//@   assert at return#3@471c9a7a.1: ret0 == nil && ret3 == n.backtrackingEnabled
+//@   assert at return#7@b07b524b.1: ret0 == n.catchAllChild && !ret3 && len(ret2) == len(captures) + 1
+//@   assert at return#8@e864d938.1: ret0 == nil && ret3 == n.catchAllChild.backtrackingEnabled
+//@   assert at call findNode#1@8b4a47f1.1: callarg2 == captures && hasSuffix(path, callarg1)
+//@   assert at call findNode#2@5467ce5b.1: callarg0 == n.wildcardChild && hasSuffix(path, callarg1)
+//@   assert at call findNode#2@5467ce5b.1: len(callarg2) == len(captures) + 1
+//@   assert at call findNode#2@5467ce5b.1: len(callarg2[len(callarg2) - 1]) > 0 && !contains(callarg2[len(callarg2) - 1], "/")
+//@   assert at return#1@dd28b413.1: ret0 == nil && ret3
+//@   assert at return#4@f7bc7595.1: ret0 != nil || !ret3
+//@   assert at return#5@7fe0faff.1: ret0 != nil
+//@   assert at return#6@e2e61dde.1: ret0 == nil && !ret3
+//@   assert at return#9@82e010f7.1: ret0 == nil && ret3
 
 // the end of the current path segment: the index of the first '/' or the length of the path; the
 // segment itself contains no '/'
@@ -45,13 +45,13 @@ package radixtree
 // is switched on again when the last rule of a node is removed (delNode).
 //@ func (*Tree).addNode
 //@   props C02 C06
-//@   assert at store backtrackingEnabled#1: len(n.values) == 0
-//@   assert at store backtrackingEnabled#2: len(n.values) == 0
-//@   assert at store backtrackingEnabled#3: len(n.values) == 0
+//@   assert at store backtrackingEnabled#1@3c40cf69.1: len(n.values) == 0
+//@   assert at store backtrackingEnabled#2@3c40cf69.2: len(n.values) == 0
+//@   assert at store backtrackingEnabled#3@3c40cf69.3: len(n.values) == 0
 
 //@ func (*Tree).delNode
 //@   props C02 C06
-//@   assert at return#2: len(n.values) == 0 ==> n.backtrackingEnabled
+//@   assert at return#2@3fbd3b54.1: len(n.values) == 0 ==> n.backtrackingEnabled
 
 // the lookup either yields an entry or an error (ghost log tfind)
 //@ func (*Tree).Find
